@@ -229,8 +229,10 @@ var specSpin = pbt.Register(&pbt.Spec[PCase]{
 		c := PCase{Stable: rapid.SampledFrom([]int{0, 1, 1, 1, 2, 5, 40}).Draw(t, "stable"), Iters: rapid.SampledFrom([]int{20000, 100000, 300000}).Draw(t, "iters"),
 			Procs: rapid.SampledFrom([]int{2, 4, 8, 16}).Draw(t, "procs")}
 		switch rapid.IntRange(0, 3).Draw(t, "template") {
-		case 0: // one key comes and goes while a Range looks
+		case 0: // one key comes and goes while a Range looks at a map that holds one or two other keys
 			c.Roles = []string{"los0", "lad0", "range"}
+			c.Stable = rapid.SampledFrom([]int{1, 1, 2}).Draw(t, "few")
+			c.Iters = 300000
 		case 1:
 			c.Roles = []string{"los0", "los0", "lad0", "lad0", "churn"}
 		default:
